@@ -1,5 +1,6 @@
 """C19 — Tensor: per-dimension check before use, single access path, construction validation,
 equality covers shape and data, row-major strides, rank witnesses.  See DESIGN.md §4 C19."""
+import re
 from .. import util, zones, witness
 from ..absint import tstr, mk_int, subterms
 from ..core import Anchor
@@ -18,7 +19,9 @@ LEVEL_TEXT = (
     "carries the fact idx[i] < dims[i] for the very i whose index is multiplied in, the loop ranges over all D dimensions last-first "
     "with result += stride*idx[i]; stride *= dims[i] from (0, 1) (row-major); the data vector is only indexed by that routine's "
     "result; all four construction sites assert non-zero extents and a matching length; the hand-written equality reads dims and data "
-    "of both operands; a rank-mismatched index expression does not type-check. The text layout of the IO round trip is not decided."
+    "of both operands; a rank-mismatched index expression does not type-check; Writable::write puts at least one whitespace "
+    "character between two consecutive elements on every path (a separator loop is shown to run at least once). The rest of the "
+    "text layout of the IO round trip (which separator, line structure) is not decided."
 )
 LEVEL_NOTE = "trusted: rustc MIR, exporter, std axioms (Range/Rev iteration, Vec index); the assert!s are the release-profile checks too (they are not debug_assert!)"
 EXPLANATION = (
@@ -28,6 +31,8 @@ EXPLANATION = (
     "!dims.contains(&0) and either product(dims)==len or data built from product(dims). Y4: eq reads every field of both operands. "
     "Y5 row-major: reversed range, result' = result + sz*idx[i], sz' = sz*dims[i], initial (0,1); the writers step the index with "
     "rposition + fill(0) (last index fastest). Y6: compile-fail witness (rank-2 index on a rank-3 tensor, E0277) with compiling twin. "
+    "Y7: every round of the element loop of Writable::write contains a write_char of ' '/'\\n'/'\\t'/'\\r', directly or in a separator "
+    "loop / for_each over a range whose non-emptiness the path's facts entail (difference bounds, or `0..n` with n tested unequal to 0). "
     "NOT decided: text layout of the IO round trip."
 )
 UNDECIDED = ["text layout (separators) of the IO round trip", "that distinct valid multi-indices give distinct offsets as a value statement (follows from Y1+Y5 by positional-notation arithmetic, not re-proved)"]
@@ -56,6 +61,7 @@ def check(col, prog, tier, profile, fixture=None):
         raise Anchor("Tensor is expected to have fields dims and data")
     DIMS, DATA = dims_[0], data_[0]
     gi = util.need_body(crate, "Tensor::<T, D>::get_index")
+    col.rule("Y7" + sfx, "Writable::write: between two consecutive elements at least one whitespace character is written on every path (a separator loop is shown to run at least once)", floor=2)
     col.rule("Y1" + sfx, "every iteration of the flattening loop entails idx[i] < dims[i] for the i it uses; loop covers 0..D", floor=2)
     col.rule("Y2" + sfx, "the data vector is indexed only by the flattening routine's result", floor=2)
     col.rule("Y3" + sfx, "every construction asserts non-zero extents and matching length", floor=4)
@@ -238,7 +244,10 @@ def _rest(col, crate, adt, gi, DIMS, DATA, sfx):
             len_ok = False
             truncated = False
             # parameters that carry the caller's data (a Vec, a slice, an iterator): its length is what must be compared
-            data_params = [("param", k_, Ib.names.get(k_)) for k_ in range(1, b.arg_count + 1) if _carries_data(str(b.locals[k_]["ty"]))]
+            # (a parameter of a bare generic type other than the element type - `I: IntoIterator<Item = T>` - carries data too)
+            m_el = re.search(r"<\s*([A-Za-z_]\w*)", str(b.locals[0]["ty"]))
+            el_ty = m_el.group(1) if m_el else None
+            data_params = [("param", k_, Ib.names.get(k_)) for k_ in range(1, b.arg_count + 1) if _carries_data(str(b.locals[k_]["ty"])) or (re.fullmatch(r"[A-Z]\w*", str(b.locals[k_]["ty"])) and str(b.locals[k_]["ty"]) not in (el_ty, "Self"))]
             for f in st.facts:
                 t = f[1]
                 if t[0] == "call" and str(t[1]).endswith("::contains") and f[0] == "eq" and f[2] == 0:
@@ -377,6 +386,101 @@ def _rest(col, crate, adt, gi, DIMS, DATA, sfx):
                 col.ok("Y5" + sfx, b.loc(), key, "next index = rposition(not saturated) + 1, zero-fill behind", nontrivial=False)
             else:
                 col.violation("Y5" + sfx, key, b.loc(), "%s does not advance the multi-index last-dimension-fastest (rposition + fill(0))" % b.path)
+
+    # ---------------- Y7 something is written between two consecutive elements (write -> read round trip)
+    WS = {mk_int(c) for c in (32, 10, 9, 13)}
+    def _is_ws(e):
+        return e.kind == "call" and e.extra.get("name") == "write_char" and len(e.args) > 1 and e.args[1] in WS
+    def _is_elem(e):
+        return e.kind == "call" and e.extra.get("name") == "write" and "Writer" in str(e.extra.get("gpath") or "")
+    for b in crate.bodies:
+        imp = crate.impl_of(b)
+        if b.is_closure or b.name != "write" or imp is None or not str(imp.get("trait") or "").endswith("Writable") or imp.get("self_adt") != adt["key"]:
+            continue
+        Iw = util.analyser(helpers_)(b)
+        backs = [(hd, st_) for hd, l in Iw.backedge_states.items() for st_ in l]
+        nj = 0
+        for hd, st_ in backs:
+            evs = st_.event_list()
+            marks = [i for i, e in enumerate(evs) if e.kind == "loop" and e.bb == hd]
+            if not marks:
+                continue
+            seg = evs[marks[-1] + 1:]          # one round of the loop `hd`
+            if not any(_is_elem(e) for e in seg):
+                continue    # a round of a loop that writes no element: an iteration of a separator loop
+            nj += 1
+            key = "%s|separator" % fk(b)
+            z_ = zones.zone_of(st_.facts, Iw.tys)
+
+            def _nonempty(rng_):
+                if z_.entails("Lt", rng_[0], rng_[1]):
+                    return True
+                # `0..n` with n a value the path has tested unequal to zero (`pos + 1 != D` for `0..D - pos - 1`, the
+                # `otherwise` arm of `match D - pos - 1 { 0 => .. }`): in unsigned arithmetic n is then positive - or its
+                # subtraction overflowed, which is a panic or a wrapped, huge count, never zero
+                if rng_[0] != mk_int(0):
+                    return False
+                la_ = zones.linearize(rng_[1])
+                if la_ is None or not la_[0]:
+                    return False
+                n_ = ({x: -c for x, c in la_[0].items()}, -la_[1])
+                return any(zones._same_lin(q_, la_) or zones._same_lin(q_, n_) for q_ in z_.diseq)
+
+            def _range_of(t):
+                for x in [t] + list(subterms(t)):
+                    if isinstance(x, tuple) and x and x[0] == "agg" and isinstance(x[1], tuple) and len(x[1]) > 1 and str(x[1][1]).endswith("ops::Range"):
+                        return x[2]
+                    if isinstance(x, tuple) and x and x[0] == "rangeiter":
+                        return (x[1], x[2])
+                return None
+
+            proven, why = False, "nothing is written between this element and the next"
+            for j, e in enumerate(seg):
+                if _is_ws(e):
+                    proven, why = True, "a whitespace character is written in every round on this path"
+                    break
+                if e.kind == "loop":
+                    its = Iw.backedge_states.get(e.bb) or []
+                    every = bool(its)
+                    for it in its:
+                        ie = it.event_list()
+                        li = max(i for i, x in enumerate(ie) if x.kind == "loop")
+                        every = every and any(_is_ws(x) for x in ie[li + 1:])
+                    rng = None
+                    for x in reversed(seg[:j]):
+                        if x.kind == "call" and x.extra.get("name") == "into_iter" and x.args and _range_of(x.args[0]) is not None:
+                            rng = _range_of(x.args[0])
+                            break
+                elif e.kind == "call" and e.extra.get("name") in ("for_each", "try_for_each") and len(e.args) > 1:
+                    rng = _range_of(e.args[0])
+                    clo = [x for x in e.args[1:] if isinstance(x, tuple) and x and x[0] == "agg" and isinstance(x[1], tuple) and x[1][0] == "closure"]
+                    cb = crate.by_key.get(clo[0][1][1]) if clo else None
+                    every = False
+                    if cb is not None:
+                        Ic = util.analyser(helpers_)(cb)
+                        every = bool(Ic.final_states) and all(any(_is_ws(x) for x in fs.event_list()) for fs in Ic.final_states)
+                else:
+                    continue
+                if every and rng is not None and _nonempty(rng):
+                    proven, why = True, "the separators over %s..%s: a whitespace character per round, at least one round" % (tstr(rng[0]), tstr(rng[1]))
+                    break
+                elif every:
+                    why = "the separators after this element are written by a loop that the path does not show to run at least once (%s): when it runs zero times two elements are written back to back and read back as one token" % ("over %s..%s" % (tstr(rng[0])[:60], tstr(rng[1])[:120]) if rng else "not a range of known bounds")
+            if not proven and any(e.kind == "call" and e.extra.get("name") == "enumerate" for e in evs[:marks[-1]]):
+                # `for (k, x) in data.iter().enumerate() { if k != 0 { separators } write(x) }`: the round without a
+                # separator is the one whose enumeration index is 0 - the first, with no element before it
+                for f_ in st_.facts:
+                    t_ = f_[1]
+                    if isinstance(t_, tuple) and t_ and t_[0] == "bin" and t_[1] in ("Ne", "Eq") and t_[3] == mk_int(0) and f_[0] == "eq" and f_[2] == (0 if t_[1] == "Ne" else 1):
+                        ts_ = tstr(t_[2])
+                        if ts_.startswith("(next(") and ts_.endswith(".0.0"):
+                            proven, why = True, "the round without a separator is the first (enumeration index 0)"
+            if proven:
+                col.ok("Y7" + sfx, b.loc(), key, why)
+            else:
+                col.violation("Y7" + sfx, key, b.loc(), "%s: %s" % (b.path, why))
+        if nj == 0:
+            col.violation("Y7" + sfx, "%s|separator|loop" % fk(b), b.loc(), "%s: no loop writing the elements one after another was found" % b.path)
 
 
 def _is_sum(t, a, b):
